@@ -81,11 +81,44 @@ def run_calls(k, calls):
                 obs.append(("call %d: returned value %d equals the plain function's" % (ci, i), g == w))
             else:
                 obs.append(("call %d: returned value %d equals the plain function's" % (ci, i), ("eq", g, w)))
-        try:
-            rt.snark(wrapped)(*args, extra=1)
-            obs.append(("call %d: keyword arguments are refused" % ci, False))
-        except ValueError:
-            obs.append(("call %d: keyword arguments are refused" % ci, True))
+        for kw in (dict(extra=1), dict(label="x"), dict(weights=[5, 7]), dict(opt=None), dict(extra=2.5)):
+            n1 = len(rec.pubvals)
+            try:
+                rt.snark(wrapped)(*args, **kw)
+                obs.append(("call %d: keyword arguments are refused (%s)" % (ci, sorted(kw)), False))
+            except ValueError:
+                obs.append(("call %d: keyword arguments are refused (%s)" % (ci, sorted(kw)), len(rec.pubvals) == n1))
+            except TypeError:
+                obs.append(("call %d: keyword arguments are refused with ValueError (%s)" % (ci, sorted(kw)), False))
+    return obs
+
+
+def run_guarded_call(k):
+    """a wrapped call made inside a branch whose guard may be false: its outputs are still tied to the computed wires"""
+    rt = k.rt
+    rec = k.env.rec
+    g = k.S("g")
+    stash = []
+
+    def body(x, y):
+        r = x * y + 1
+        stash.append(r)
+        return r
+    n0, c0 = len(rec.pubvals), len(rec.constraints)
+    ret = rt.guarded(g)(lambda: rt.snark(body)(k.v("x"), k.v("y")))()
+    newpub = rec.pubvals[n0:]
+    obs = [("guarded call: two inputs and one output become public", len(newpub) == 3)]
+    if len(newpub) == 3:
+        lc = lincomb_of(stash[0])
+        obs.append(("guarded call: output value", ("eq", newpub[2], lc.value)))
+        wire = n0 + 3
+        # under a guard the tie is  0*0 = (result - pub) + dummy ;  guard * dummy = 0
+        tied = False
+        for c in rec.constraints[c0:]:
+            cc = {a: b for a, b in c[2].lc.items() if b != 0}
+            if not c[0].lc and not c[1].lc and cc.get(wire) == -1 and all(cc.get(a) == b for a, b in lc.lc.lc.items() if b != 0):
+                tied = True
+        obs.append(("guarded call: the output is tied to its computed wire whatever the guard", tied))
     return obs
 
 
@@ -143,8 +176,11 @@ PROGRAMS = {
 
 
 def build(n=4, tier="quick"):
-    return [Entry("snark_" + nm, (lambda k, calls=calls: run_calls(k, calls)), ins, tags={"c17"})
+    ents = [Entry("snark_" + nm, (lambda k, calls=calls: run_calls(k, calls)), ins, tags={"c17"})
             for nm, (calls, ins) in PROGRAMS.items()]
+    ents.append(Entry("snark_guarded_call", run_guarded_call, ("g", "x", "y"),
+                      assume=lambda k: [(k.v("g") == 0) | (k.v("g") == 1)], tags={"c17", "guard"}))
+    return ents
 
 
 def by_name(n=4, tier="thorough"):
